@@ -3,7 +3,6 @@ package main
 import (
 	"fmt"
 	"go/token"
-	"go/types"
 	"strings"
 
 	"golang.org/x/tools/go/ssa"
@@ -28,8 +27,23 @@ func runC09(c *Ctx) {
 	if p == nil {
 		return
 	}
-	scope := inFuncs("board.(*Board).IsCheckmate", "board.(*Board).IsStalemate", "board.(*Board).Attackers", "board.(*Board).Block", "board.(*Board).IsAttacked")
-	c.Floor("C09.R1.PA1", pa1(c, p, "C09.R1.PA1", scope), 24, "attack-pattern ∩ piece-set sites")
+	// the two tests, the attack helpers they use, and every board-package helper reachable from them
+	var scopeRoots []*ssa.Function
+	for _, n := range []string{"board.(*Board).IsCheckmate", "board.(*Board).IsStalemate", "board.(*Board).Attackers", "board.(*Board).Block", "board.(*Board).IsAttacked"} {
+		if fn := p.Func(n); fn != nil {
+			scopeRoots = append(scopeRoots, fn)
+		} else {
+			c.Anchor("C09.R1.PA1", n)
+		}
+	}
+	inScope := map[*ssa.Function]bool{}
+	for _, fn := range p.closure(scopeRoots, func(f *ssa.Function) bool { return relPkg(fnPkgPath(f)) != "board" }) {
+		if relPkg(fnPkgPath(fn)) == "board" {
+			inScope[fn] = true
+		}
+	}
+	scope := paScope(func(fn *ssa.Function) bool { return inScope[fn] })
+	c.Floor("C09.R1.PA1", pa1(c, p, "C09.R1.PA1", scope), 12, "attack-pattern ∩ piece-set sites")
 	c.Floor("C09.R1.PA2", pa2(c, p, "C09.R1.PA2", inFuncs("board.(*Board).IsStalemate")), 4, "mobility sites whose origin square comes from a piece set")
 	c.Floor("C09.R1.PA4", pa4(c, p, "C09.R1.PA4", scope), 4, "pawn-capture colour sites")
 	c09R2(c, p)
@@ -75,102 +89,171 @@ func parsePinTest(cond ssa.Value, pcs map[int64]string) (*pinTest, bool) {
 	return pt, pt.Call != nil
 }
 
+// paramBindings: for a parameter of a chess-3 helper, the arguments passed at every static call site
+// (transitively); for anything else the value itself.
+func paramBindings(p *Prog, v ssa.Value, depth int) []ssa.Value {
+	par, ok := v.(*ssa.Parameter)
+	if !ok || depth > 3 {
+		return []ssa.Value{v}
+	}
+	fn := par.Parent()
+	idx := -1
+	for i, q := range fn.Params {
+		if q == par {
+			idx = i
+		}
+	}
+	var out []ssa.Value
+	for _, caller := range p.OwnFuncs() {
+		allInstrs(caller, func(in ssa.Instruction) {
+			ci, ok := in.(ssa.CallInstruction)
+			if !ok || ci.Common().StaticCallee() != fn || idx >= len(ci.Common().Args) {
+				return
+			}
+			out = append(out, paramBindings(p, ci.Common().Args[idx], depth+1)...)
+		})
+	}
+	if len(out) == 0 {
+		return []ssa.Value{v}
+	}
+	return out
+}
+
+func kindsThroughParams(p *Prog, v ssa.Value, pcs map[int64]string) []string {
+	set := map[string]bool{}
+	var roots []ssa.Value
+	for x := range backSlice(v, sliceOpts{ThroughCalls: true}) {
+		if _, ok := x.(*ssa.Parameter); ok {
+			roots = append(roots, paramBindings(p, x, 0)...)
+		}
+	}
+	roots = append(roots, v)
+	for _, r := range roots {
+		for _, k := range sourceKinds(r, pcs) {
+			set[k] = true
+		}
+	}
+	return sortedKeys(set)
+}
+
+// kingRay is one slider-ray lookup from the own king's square on some occupancy, intersected with enemy sliders.
+type kingRay struct {
+	Fn    *ssa.Function
+	Call  *ssa.Call
+	F     string
+	Other []ssa.Value
+	Ord   int
+}
+
+// c09R2: every decision "moving this piece exposes the king" looks along BOTH ray kinds. For each
+// slider-ray lookup from the king's square there is, in the same function, the lookup of the other
+// kind from the same square on the same occupancy against the same enemy set — except the two
+// deliberate one-sided tests that guard the mobility of a bishop (rook rays only) / rook (bishop rays only).
 func c09R2(c *Ctx, p *Prog) {
 	const rule = "C09.R2"
 	pcs := pieceConsts(p)
-	total := 0
-	oneSided := 0
+	var roots []*ssa.Function
 	for _, spec := range []string{"board.(*Board).IsCheckmate", "board.(*Board).IsStalemate"} {
 		fn := p.Func(spec)
 		if fn == nil {
 			c.Anchor(rule, spec)
 			continue
 		}
-		inPinned := map[*ssa.Call]bool{}
-		nphi := 0
+		roots = append(roots, fn)
+	}
+	isRoot := func(fn *ssa.Function) bool {
+		for _, r := range roots {
+			if r == fn {
+				return true
+			}
+		}
+		return false
+	}
+	total, oneSided := 0, 0
+	// the two tests and the helpers private to them (a helper with other callers is a general attack query, checked by R1)
+	private := map[*ssa.Function]bool{}
+	for _, fn := range p.closure(roots, func(f *ssa.Function) bool { return relPkg(fnPkgPath(f)) != "board" }) {
+		if relPkg(fnPkgPath(fn)) == "board" {
+			private[fn] = true
+		}
+	}
+	for changed := true; changed; {
+		changed = false
+		for _, caller := range p.OwnFuncs() {
+			if private[caller] {
+				continue
+			}
+			allInstrs(caller, func(in ssa.Instruction) {
+				if ci, ok := in.(ssa.CallInstruction); ok {
+					if callee := ci.Common().StaticCallee(); callee != nil && private[callee] && !isRoot(callee) {
+						delete(private, callee)
+						changed = true
+					}
+				}
+			})
+		}
+	}
+	for _, fn := range p.closure(roots, func(f *ssa.Function) bool { return relPkg(fnPkgPath(f)) != "board" }) {
+		if !private[fn] {
+			continue
+		}
+		var rays []*kingRay
+		ord := map[string]int{}
 		allInstrs(fn, func(in ssa.Instruction) {
-			ph, ok := in.(*ssa.Phi)
+			call, ok := in.(*ssa.Call)
 			if !ok {
 				return
 			}
-			if b, ok := ph.Type().Underlying().(*types.Basic); !ok || b.Kind() != types.Bool {
+			f, ok := attackFns[objName(calleeObj(call))]
+			if !ok || (f != "Bishop" && f != "Rook") {
 				return
 			}
-			var tests []*pinTest
-			allConst := true
-			for i, e := range ph.Edges {
-				k, isc := constOf(e)
-				if !isc {
-					allConst = false
-					break
-				}
-				if k == 0 {
+			ks := kindsThroughParams(p, call.Call.Args[0], pcs)
+			if len(ks) != 1 || ks[0] != "King" {
+				return
+			}
+			// the conjunction this lookup is part of: only lookups intersected with a piece set are pin/check tests
+			conj, _ := andConjuncts(call)
+			var leaves []ssa.Value
+			for _, cj := range conj {
+				flattenAnd(cj, &leaves)
+			}
+			kr := &kingRay{Fn: fn, Call: call, F: f}
+			hasSet := false
+			for _, lf := range leaves {
+				lf = stripConv(lf)
+				if lf == ssa.Value(call) {
 					continue
 				}
-				// the branch that set it to true
-				pred := ph.Block().Preds[i]
-				var ce []condEdge
-				if len(pred.Preds) == 1 {
-					ce = edgeCond(pred.Preds[0], pred)
+				if u, ok := lf.(*ssa.UnOp); ok && u.Op == token.XOR {
+					continue
 				}
-				if len(ce) == 0 {
-					ce = edgeCond(pred, ph.Block())
+				if _, ok := pureOrOfPieces(lf, pcs); ok {
+					hasSet = true
+					continue
 				}
-				if len(ce) != 1 {
-					allConst = false
-					break
-				}
-				pt, ok := parsePinTest(ce[0].Cond, pcs)
-				if !ok || ce[0].True != (pt.Cond.Op == token.NEQ) {
-					allConst = false
-					break
-				}
-				tests = append(tests, pt)
+				kr.Other = append(kr.Other, lf)
 			}
-			if !allConst || len(tests) == 0 {
+			if !hasSet {
 				return
 			}
-			nphi++
-			total++
-			key := fmt.Sprintf("%s#pinned@%d", spec, nphi)
-			for _, t := range tests {
-				inPinned[t.Call] = true
-			}
-			kinds := map[string]*pinTest{}
-			for _, t := range tests {
-				kinds[t.F] = t
-			}
-			if len(tests) != 2 || kinds["Bishop"] == nil || kinds["Rook"] == nil {
-				have := sortedKeys(kinds)
-				c.Fail(rule, key, ph.Pos(), "a piece is declared pinned from %v rays only; a pin can come along a diagonal (bishop/queen) or along a rank/file (rook/queen) — both tests are needed", have)
-				return
-			}
-			b, r := kinds["Bishop"], kinds["Rook"]
-			okSq := sameValue(b.Call.Call.Args[0], r.Call.Call.Args[0], 0)
-			sk := sourceKinds(b.Call.Call.Args[0], pcs)
-			okKing := len(sk) == 1 && sk[0] == "King"
-			okOcc := sameValue(b.Call.Call.Args[1], r.Call.Call.Args[1], 0)
-			okOpp := len(b.Other) == 1 && len(r.Other) == 1 && sameValue(b.Other[0], r.Other[0], 0)
-			if okOpp {
-				okOpp = false
-				for v := range backSlice(b.Other[0], sliceOpts{}) {
-					if ce, ok := coloursLoad(v); ok && ce == (colourExpr{"STM", true}) {
-						okOpp = true
-					}
-				}
-			}
-			switch {
-			case !okSq || !okKing:
-				c.Fail(rule, key, ph.Pos(), "the two pin tests do not both look from the own king's square")
-			case !okOcc:
-				c.Fail(rule, key, ph.Pos(), "the diagonal and the lateral pin test use different occupancies: one of them does not see the simulated move")
-			case !okOpp:
-				c.Fail(rule, key, ph.Pos(), "the two pin tests are not both restricted to the same opponent piece set derived from Colors[STM.Flip()]")
-			default:
-				c.Ok(rule, key, ph.Pos(), "pinned = diagonal test ∨ lateral test, both from the king's square on the same simulated occupancy against the opponent")
-			}
+			ord[f]++
+			kr.Ord = ord[f]
+			rays = append(rays, kr)
 		})
-		// one-sided tests: king-ray test guarding a slider's mobility test
+		paired := map[*kingRay]*kingRay{}
+		for _, a := range rays {
+			for _, b := range rays {
+				if a.F == b.F || paired[a] != nil || paired[b] != nil {
+					continue
+				}
+				if sameValue(a.Call.Call.Args[0], b.Call.Call.Args[0], 0) && sameValue(a.Call.Call.Args[1], b.Call.Call.Args[1], 0) {
+					paired[a], paired[b] = b, a
+				}
+			}
+		}
+		// one-sided tests: an unpaired king-ray test guarding the mobility lookup of a bishop / rook
+		guardsSlider := map[*kingRay]bool{}
 		allInstrs(fn, func(in ssa.Instruction) {
 			call, ok := in.(*ssa.Call)
 			if !ok {
@@ -184,25 +267,110 @@ func c09R2(c *Ctx, p *Prog) {
 			if len(sk) != 1 || (sk[0] != "Bishop" && sk[0] != "Rook") {
 				return
 			}
-			// controlling king-ray condition
 			for _, ce := range controllingConds(call.Block()) {
 				pt, ok := parsePinTest(ce.Cond, pcs)
-				if !ok || inPinned[pt.Call] {
+				if !ok {
 					continue
 				}
-				ks := sourceKinds(pt.Call.Call.Args[0], pcs)
-				if len(ks) != 1 || ks[0] != "King" {
+				var kr *kingRay
+				for _, r := range rays {
+					if r.Call == pt.Call {
+						kr = r
+					}
+				}
+				if kr == nil || paired[kr] != nil {
 					continue
 				}
+				guardsSlider[kr] = true
 				oneSided++
-				key := fmt.Sprintf("%s#paralysed-%s", spec, strings.ToLower(sk[0]))
+				key := fmt.Sprintf("%s#paralysed-%s", fnName(fn), strings.ToLower(sk[0]))
 				notPinnedEdge := ce.True == (pt.Cond.Op == token.EQL)
 				other := map[string]string{"Bishop": "Rook", "Rook": "Bishop"}[sk[0]]
 				c.Check(pt.F == other && notPinnedEdge, rule, key, call.Pos(), "a %s's mobility is consulted only when no %s-ray pin (the kind it cannot slide along) holds it; found %s-ray test, mobility on the not-pinned edge: %v", sk[0], other, pt.F, notPinnedEdge)
 			}
 		})
+		for _, a := range rays {
+			key := fmt.Sprintf("%s#pinned:%s@%d", fnName(fn), a.F, a.Ord)
+			if b := paired[a]; b != nil {
+				if a.F != "Bishop" {
+					continue // reported once, from the diagonal side
+				}
+				total++
+				okOpp := len(a.Other) == len(b.Other)
+				if okOpp {
+					for i := range a.Other {
+						if !sameValue(a.Other[i], b.Other[i], 0) {
+							okOpp = false
+						}
+					}
+				}
+				if okOpp && len(a.Other) == 1 {
+					// the enemy set: derived from Colors[STM.Flip()] (through helper parameters)
+					found := false
+					for _, root := range paramBindings(p, a.Other[0], 0) {
+						srcs := []ssa.Value{root}
+						for x := range backSlice(root, sliceOpts{}) {
+							if _, isPar := x.(*ssa.Parameter); isPar {
+								srcs = append(srcs, paramBindings(p, x, 0)...)
+							}
+						}
+						for _, s := range srcs {
+							for v := range backSlice(s, sliceOpts{}) {
+								if ce, ok := coloursLoad(v); ok && ce == (colourExpr{"STM", true}) {
+									found = true
+								}
+							}
+						}
+					}
+					if !found {
+						c.Fail(rule, key, a.Call.Pos(), "the two pin tests are not restricted to a piece set derived from Colors[STM.Flip()]")
+						continue
+					}
+				}
+				if !okOpp {
+					c.Fail(rule, key, a.Call.Pos(), "the diagonal and the lateral pin test are not restricted to the same opponent piece set")
+					continue
+				}
+				c.Ok(rule, key, a.Call.Pos(), "diagonal and lateral test from the king's square on the same simulated occupancy against the same opponent set")
+				continue
+			}
+			if guardsSlider[a] {
+				continue
+			}
+			total++
+			// why is there no partner?
+			why, decided := "", true
+			for _, b := range rays {
+				if b.F != a.F && sameValue(a.Call.Call.Args[0], b.Call.Call.Args[0], 0) && paired[b] == nil {
+					why = fmt.Sprintf("the %s-ray test of the same decision (%s) uses a different occupancy: one of them does not see the simulated move", b.F, p.Rel(b.Call.Pos()))
+				}
+			}
+			if why == "" {
+				why = fmt.Sprintf("exposure of the king is decided from %s rays only; a pin can come along a diagonal (bishop/queen) or along a rank/file (rook/queen) — both tests are needed", a.F)
+				// the partner may live in another helper that receives the same occupancy
+				allInstrs(fn, func(in ssa.Instruction) {
+					ci, ok := in.(ssa.CallInstruction)
+					if !ok || ci.Common().StaticCallee() == nil || !isOwn(ci.Common().StaticCallee()) || relPkg(fnPkgPath(ci.Common().StaticCallee())) == "attacks" {
+						return
+					}
+					for _, arg := range ci.Common().Args {
+						if sameValue(arg, a.Call.Call.Args[1], 0) {
+							decided = false
+						}
+					}
+				})
+				if !isRoot(fn) {
+					decided = false
+				}
+			}
+			if decided {
+				c.Fail(rule, key, a.Call.Pos(), "%s", why)
+			} else {
+				c.Undec(rule, key, a.Call.Pos(), "no %s-ray partner in this function; it may be computed by another helper (%s)", map[string]string{"Bishop": "Rook", "Rook": "Bishop"}[a.F], why)
+			}
+		}
 	}
-	c.Floor(rule+".pinned", total, 6, "pinned decisions in IsCheckmate/IsStalemate")
+	c.Floor(rule+".pinned", total, 2, "two-sided pin decisions reachable from IsCheckmate/IsStalemate")
 	c.Floor(rule+".one-sided", oneSided, 2, "one-sided paralysis tests in IsStalemate")
 }
 
